@@ -1852,6 +1852,7 @@ impl PeerConnection {
                 } else {
                     let kind = section.kind;
                     let direction: TransceiverDirection = section.direction.into();
+                    let direction = direction.answer_direction();
                     let t = Arc::new(RtpTransceiver::new(kind, direction));
                     t.set_mid(mid.clone());
 
@@ -2247,15 +2248,21 @@ impl PeerConnection {
             5000
         };
 
+        // The offerer gets its DTLS role and starts ICE inside set_remote_description(answer),
+        // which stores the remote description only at its very end: on a fast path (loopback) this
+        // function can run before that store. The local description (our own offer) is already in
+        // place then, so consult both; otherwise SCTP was silently never started on the offerer
+        // although both ends reported Connected.
         let sctp_needed = {
-            let remote = self.inner.remote_description.lock();
-            if let Some(desc) = &*remote {
-                desc.media_sections
-                    .iter()
-                    .any(|m| m.kind == MediaKind::Application)
-            } else {
-                false
-            }
+            let has_application = |desc: &Option<SessionDescription>| {
+                desc.as_ref().is_some_and(|d| {
+                    d.media_sections
+                        .iter()
+                        .any(|m| m.kind == MediaKind::Application)
+                })
+            };
+            has_application(&self.inner.remote_description.lock())
+                || has_application(&self.inner.local_description.lock())
         };
 
         let (dc_tx, mut dc_rx) = mpsc::unbounded_channel();
